@@ -98,6 +98,9 @@ func (w *World) buildOverlay(props map[string]bool) error {
 	w.overlay = map[string][]byte{}
 	w.overlayMap = map[string]string{}
 	root := filepath.Join(w.verifDir, "harness")
+	if r, err := filepath.EvalSymlinks(root); err == nil {
+		root = r
+	}
 	rt, err := os.ReadFile(filepath.Join(root, "rt.go.tmpl"))
 	if err != nil {
 		return err
